@@ -2,45 +2,61 @@
 from circuit_common import *
 PROP = "C03"
 RULE = ("concurrent scripts (callers on clones, polls in any order, cancellations, gated inner outcomes incl. panics, advances hitting the wait boundary, "
-        "force_open/force_closed/reset) + half-open bursts + sequential histories; non-trivial = the breaker left Closed at least once")
+        "force_open/force_closed/reset, classifier panics, calls created before and polled after the breaker opened) + half-open bursts (incl. wait 0, slow trials, "
+        "calls admitted while closed completing during the phase) + sequential histories + classifier-panic trials; operator actions through a clone taken before with_fallback; non-trivial = the breaker left Closed at least once")
 
 
 def generate(rng, tier):
     k = 1 if tier == "quick" else 12
     return ([random_concurrent(rng) for _ in range(900 * k)] + [half_open_burst(rng) for _ in range(400 * k)] +
-            [random_seq_history(rng) for _ in range(400 * k)] + [multi_phase_burst(rng) for _ in range(200 * k)])
+            [random_seq_history(rng) for _ in range(400 * k)] + [multi_phase_burst(rng) for _ in range(200 * k)] +
+            [classifier_panic_trials(rng) for _ in range(60 * k)])
 
 
 def monitor(s, t):
+    """The property over the implementation's trace, nothing more:
+    from the event after which the breaker is observed open (through ANY of the views: state().await,
+    state_sync(), is_open(), metrics().state) until wait_duration_in_open has elapsed since then — unless an
+    operator closes or resets it —
+      (a) no inner call is started, except possibly by the poll of a call that was MADE (its future created,
+          op 8 or an earlier poll) before the breaker was observed open ("admitted before it opened": the text
+          leaves open whether a call arrives at call() or at its first poll, both are accepted);
+      (b) a call made after that instant is answered in its first poll with OpenCircuit (r=3), or with the
+          fallback's response (r=4) when a fallback is configured.
+    A breaker found open again after a poll that started an inner call outside a shield has re-opened in that
+    very event (a trial failed at once): the wait restarts there."""
     d = decode(s, t)
     if d is None:
         return "malformed or panicking run: %s" % t[:12]
     wait, fb = s[10], s[12]
-    now, prev_state, seen = 0, 0, set()
-    shield_from = None       # instant at which the breaker was observed to open; cleared only by an operator
-    prev_inflight = 0
-    for (e, o) in d:
+    now = 0
+    made = {}                # caller -> index of the event at which its call future was created
+    polled = set()
+    shield_from, shield_idx = None, None
+    prev_open = False
+    for idx, (e, o) in enumerate(d):
         op, a, b = e
-        r, started, st, sync, mst, tot, fl, su, sl, infl, mask = o
-        if not (st == sync == mst):
-            return "views disagree after %s: state=%d state_sync/is_open=%d metrics.state=%d" % (e, st, sync, mst)
+        r, started, st, sync, mst = o[:5]
+        lockfree, flags = sync % 10, sync // 10
+        is_open = (lockfree == 1) != bool(flags & 1)
+        open_now = st == 1 or mst == 1 or lockfree == 1 or is_open
         shielded = shield_from is not None and now - shield_from < wait
+        first_poll = op == 1 and a not in polled
+        if op in (1, 2, 8) and a not in made:
+            made[a] = idx
+        if op in (1, 2):
+            polled.add(a)                       # (a dropped future is never polled again: r=9)
+        old_call = op == 1 and made[a] <= shield_idx if shielded else False
         if shielded:
-            if started:
-                return "inner call started at t=%d although the breaker was observed open at %d (wait %d) and no operator closed it" % (now, shield_from, wait)
-            if op == 1 and a not in seen and r != (4 if fb else 3):
-                return "new call at t=%d, breaker observed open at %d (wait %d): got r=%d instead of %s" % (now, shield_from, wait, r, "fallback" if fb else "OpenCircuit")
-            if infl > prev_inflight:
-                return "in-flight count grew while open"
-        if op in (1, 2, 8):
-            seen.add(a)
+            if started and not old_call:
+                return "inner call started at t=%d by %s although the breaker was observed open at t=%d (wait %d) and no operator closed it" % (now, e, shield_from, wait)
+            if first_poll and not old_call and r != (4 if fb else 3):
+                return "new call at t=%d, breaker observed open at t=%d (wait %d): got r=%d instead of %s" % (now, shield_from, wait, r, "the fallback's response" if fb else "OpenCircuit")
         if op == 3:
             now += max(0, a)
         if op in (6, 7):
             shield_from = None                  # force_closed / reset: the operator lifted the shield
-        if st == 1 and prev_state != 1:
-            shield_from = now                   # observed to open (by rate, slow rate, failed trial or force_open)
-        if st != 1 and shield_from is not None and now - shield_from >= wait:
-            shield_from = None                  # wait elapsed: the breaker may go half-open / closed again
-        prev_state, prev_inflight = st, infl
+        if open_now and (not prev_open or (started and not shielded)):
+            shield_from, shield_idx = now, idx  # observed to open (by rate, slow rate, failed trial or force_open)
+        prev_open = open_now
     return None
